@@ -3,6 +3,7 @@ package main
 import (
 	"bufio"
 	"fmt"
+	"runtime"
 	"sort"
 	"strconv"
 	"strings"
@@ -97,6 +98,11 @@ func c19gen(g *gen, tier string, w *bufio.Writer) {
 			cases = append(cases, c19case(g, l*per+i+1))
 		}
 		fmt.Fprintf(w, "win %s\n", strings.Join(cases, ";"))
+	}
+	// adders running concurrently with the cleaner: no sample may be lost, duplicated or invented
+	fmt.Fprintf(w, "wconc 1500 3700 %d\n", 1+g.intn(3))
+	if tier == "thorough" {
+		fmt.Fprintf(w, "wconc 1100 5200 4\nwconc 2500 6100 1\n")
 	}
 	// Stats.Get: min / max / avg of the samples of a window
 	n := 400
@@ -199,6 +205,8 @@ func c19run(line string) (string, string) {
 		}
 		wg.Wait()
 		return strings.Join(res, ";"), "-"
+	case "wconc":
+		return c19runConcurrent(f[1:])
 	case "get":
 		st := metrics.NewStats()
 		if f[1] != "-" {
@@ -219,4 +227,81 @@ func c19run(line string) (string, string) {
 		return fmt.Sprintf("%d,%d,%d", got["m.min"], got["m.max"], got["m.avg"]), "-"
 	}
 	return "bad-op", "-"
+}
+
+// c19runConcurrent: `adders` goroutines add distinct values as fast as they can for runMs while the
+// cleaner ticks; then Samples() is taken. Every value whose Add was called less than one lifetime
+// before Samples() returned cannot have expired at any tick so far and must be reported; nothing
+// may be reported twice or without having been added. No assumption on machine speed: older
+// values may or may not have been cleaned and are not judged.
+func c19runConcurrent(a []string) (string, string) {
+	lifeMs, _ := strconv.Atoi(a[0])
+	runMs, _ := strconv.Atoi(a[1])
+	adders, _ := strconv.Atoi(a[2])
+	lifetime := time.Duration(lifeMs) * time.Millisecond
+	w, err := metrics.NewSlidingWindowForVerif(lifetime)
+	if err != nil {
+		return "init-error", "FAIL:init"
+	}
+	defer w.Stop()
+	const stride = int64(1) << 32
+	addedAt := make([][]time.Time, adders)
+	stopAt := time.Now().Add(time.Duration(runMs) * time.Millisecond)
+	var wg sync.WaitGroup
+	for k := 0; k < adders; k++ {
+		wg.Add(1)
+		go func(k int) {
+			defer wg.Done()
+			at := make([]time.Time, 0, 1<<20)
+			for i := 0; ; i++ {
+				now := time.Now()
+				if !now.Before(stopAt) || len(at) >= 1<<22 {
+					break
+				}
+				at = append(at, now)
+				w.Add(int64(k)*stride + int64(len(at)-1))
+				if i%64 == 0 {
+					runtime.Gosched()
+				}
+			}
+			addedAt[k] = at
+		}(k)
+	}
+	wg.Wait()
+	got := w.Samples()
+	after := time.Now()
+	seen := make([]map[int64]bool, adders)
+	for k := range seen {
+		seen[k] = map[int64]bool{}
+	}
+	lost, dup, phantom := 0, 0, 0
+	for _, v := range got {
+		k, i := int(v/stride), v%stride
+		if v < 0 || k >= adders || i >= int64(len(addedAt[k])) {
+			phantom++
+			continue
+		}
+		if seen[k][i] {
+			dup++
+		}
+		seen[k][i] = true
+	}
+	for k := range addedAt {
+		for i, t := range addedAt[k] {
+			if t.Add(lifetime).After(after) && !seen[k][int64(i)] {
+				lost++
+			}
+		}
+	}
+	verdict := "ok"
+	if lost+dup+phantom > 0 {
+		verdict = fmt.Sprintf("FAIL:window-concurrent lost=%d dup=%d phantom=%d of %d reported", lost, dup, phantom, len(got))
+	}
+	b := func(n int) int {
+		if n > 0 {
+			return 1
+		}
+		return 0
+	}
+	return fmt.Sprintf("lost=%d,dup=%d,phantom=%d", b(lost), b(dup), b(phantom)), verdict
 }
